@@ -127,6 +127,18 @@ def r_spawner_iterations(ctx: Ctx, rule: str, names=SPAWNERS):
             ai, exits = run_iteration_typestate(ctx, f, head, is_map)
             rep.analysed.setdefault("spawner_typestate", {})[f.qual] = {"product_states": ai.product_states, "product_edges": ai.product_edges,
                                                                          "exits": sorted(str(k[0]) + ":" + (k[1][0].rpartition(".")[2] if k[1] else "") for k in exits)}
+            if ctx.tier == "thorough":
+                from ..absint import enumerate_paths
+                ai2, _ = run_iteration_typestate(ctx, f, head, is_map)
+                ai2.events.clear()
+                ends, n_paths, trunc = enumerate_paths(ai2, f, (False, 0, False, 0, 0, 0, False, False))
+                fix = {(k, s) for k, v in exits.items() for s in v}
+                got = set(ends)
+                agree = got <= fix and (trunc or fix <= got) and {(e.node.id, e.msg) for e in ai2.events} == {(e.node.id, e.msg) for e in ai.events}
+                rep.analysed["spawner_typestate"][f.qual].update({"paths_enumerated": n_paths, "path_end_states": len(got), "enumeration_truncated": trunc})
+                rep.ob(rule + ".paths", "explicit enumeration of every acyclic path of the spawner (exception injected at every user-code call, cancellation at every "
+                       "suspension step) reaches exactly the end states and events of the fixpoint analysis", True if agree else None, func=f,
+                       construct=f"{n_paths} paths, {len(got)} distinct end states")
             for e in ai.events:
                 rep.ob(rule, e.msg, False, node=e.node, path=e.trace,
                        detail=f"state (in_iter, user_calls, call_ok, map_acquires, map_releases, starts, cancelled, user_exc) = {e.state}")
@@ -248,24 +260,40 @@ def const_reach(ctx: Ctx, f: FuncInfo, env0: Dict[str, object], on_node, start: 
             return (ok, (not v) if ok else None)
         return False, None
 
+    # variables of a spliced helper's frame are kept apart from the caller's by a frame prefix
+    def prefix(fenv) -> str:
+        return "" if fenv is None else f"{id(fenv)}:"
+
+    def view(fenv, st) -> Dict[str, object]:
+        p = prefix(fenv)
+        if not p:
+            return {k: v for k, v in st if ":" not in k}
+        return {k[len(p):]: v for k, v in st if k.startswith(p)}
+
+    def bind_params(call: ast.Call, callee: FuncInfo, arg_of, caller_view) -> Dict[str, object]:
+        new: Dict[str, object] = {}
+        own = ctx.owner(call)
+        has_star = any(isinstance(a, ast.Starred) for a in call.args) or \
+            any(k.arg is None and (own is None or ctx.vals.dict_literal(own, k.value) is None) for k in call.keywords)
+        for pname in callee.param_names():
+            a = arg_of(pname)
+            if a is None:
+                d = callee.param_default(pname)
+                if d is not None and not has_star:
+                    ok, v = lit(d, {})
+                    if ok:
+                        new[pname] = v
+                continue
+            ok, v = lit(a, caller_view)
+            if ok:
+                new[pname] = v
+        return new
+
     def enter(ai: AbsInt, n: Node, callee: FuncInfo, st):
-        env = dict(st)
         call = strip_cast(n.ast.value if isinstance(n.ast, ast.Await) else n.ast)
         new: Dict[str, object] = {}
         if isinstance(call, ast.Call):
-            has_star = any(isinstance(a, ast.Starred) for a in call.args) or any(k.arg is None for k in call.keywords)
-            for pname in callee.param_names():
-                a = ctx.call_arg(call, callee, pname)
-                if a is None:
-                    d = callee.param_default(pname)
-                    if d is not None and not has_star:
-                        ok, v = lit(d, {})
-                        if ok:
-                            new[pname] = v
-                    continue
-                ok, v = lit(a, env)
-                if ok:
-                    new[pname] = v
+            new = bind_params(call, callee, lambda pname: ctx.call_arg(call, callee, pname), view(n.env, st))
         return frozenset(new.items())
 
     def leave(ai, n, callee, before, after):
@@ -273,22 +301,31 @@ def const_reach(ctx: Ctx, f: FuncInfo, env0: Dict[str, object], on_node, start: 
 
     def transfer(ai: AbsInt, n: Node, lab: Label, st):
         env = dict(st)
+        p = prefix(n.env)
+        if n.inlined is not None and n.benv is not None and n.op in ("call", "await") and lab[0] in NORMAL_KINDS:
+            call = strip_cast(n.ast.value if isinstance(n.ast, ast.Await) else n.ast)
+            new = bind_params(call, n.inlined, lambda pname: ctx.call_arg(call, n.inlined, pname), view(n.env, st))
+            q = prefix(n.benv)
+            env = {k: v for k, v in env.items() if not k.startswith(q)}
+            for k, v in new.items():
+                env[q + k] = v
+            return [frozenset(env.items())]
         if n.op == "test" and lab[0] in ("T", "F"):
-            v = eval3(n.ast, env)
+            v = eval3(n.ast, view(n.env, st))
             if v is not None and v != (lab[0] == "T"):
                 return []
         if n.op == "assign" and lab[0] in NORMAL_KINDS:
             tgts = n.ast.targets if isinstance(n.ast, ast.Assign) else [n.ast.target]
             for t in tgts:
                 if isinstance(t, ast.Name):
-                    ok, v = lit(getattr(n.ast, "value", None), env)
+                    ok, v = lit(getattr(n.ast, "value", None), view(n.env, st))
                     if ok:
-                        env[t.id] = v
+                        env[p + t.id] = v
                     else:
-                        env.pop(t.id, None)
+                        env.pop(p + t.id, None)
             return [frozenset(env.items())]
         if n.op == "aug" and isinstance(n.ast.target, ast.Name):
-            env.pop(n.ast.target.id, None)
+            env.pop(p + n.ast.target.id, None)
             return [frozenset(env.items())]
         return [st]
 
@@ -353,7 +390,9 @@ def r_map_returns_name(ctx: Ctx, rule: str):
             for c in calls:
                 a = ctx.call_arg(c.ast, c.callee.targets[0], "group_name")
                 for r in rets:
-                    same = a is not None and r.ast.value is not None and ast.unparse(a) == ast.unparse(r.ast.value) and isinstance(a, ast.Name)
+                    same = a is not None and r.ast.value is not None and (
+                        (ast.unparse(a) == ast.unparse(r.ast.value) and isinstance(a, ast.Name) and c.func is r.func)
+                        or ctx.vals.same((c.func, c.env, a), (r.func, r.env, r.ast.value)))
                     rep.ob(rule, f"{name} returns the name under which the group was created", same, node=r, detail=f"_map gets {ast.unparse(a) if a is not None else None}")
             # the name is either the caller's or a generated one; it is not modified between the call and the return
             for r in rets:
